@@ -9,6 +9,7 @@ mod json;
 mod minimise;
 mod oracles;
 mod payload;
+mod pod;
 mod prng;
 mod props;
 mod scenario;
